@@ -52,12 +52,14 @@ type Frame struct {
 	topProps []string
 	atExit   bool
 	callStates map[string]*State
+	lockCount  map[string]int
 	autoLevel  map[string]int // Houdini state of automatic loop-frame candidates: 0 = since loop start, 1 = entry cells, 2 = off
 }
 
 type Mode struct {
 	Safety     bool // emit safety obligations instead of assuming no-panic
 	Concurrent bool // monitor model: havoc guarded fields at Lock
+	Race       bool // apply the contract's interference clauses at lock acquisitions
 	Props      map[string]bool
 }
 
@@ -1581,7 +1583,32 @@ func (vc *VC) mapDomKey(mt *types.Map) (string, string) {
 	return "MD:" + typeKey(mt), "(Array Int " + vc.mapDomSort(mt) + ")"
 }
 func (vc *VC) mapValKey(mt *types.Map) (string, string) {
-	return "MV:" + typeKey(mt), "(Array Int " + vc.mapValSort(mt) + ")"
+	key, srt := "MV:"+typeKey(mt), "(Array Int "+vc.mapValSort(mt)+")"
+	if !vc.declSeen["closure:"+key] {
+		vc.declSeen["closure:"+key] = true
+		// Go memory safety: every reference held by a map that existed at entry was allocated before entry
+		v0 := quoteSym(key + "@0")
+		sel := fmt.Sprintf("(select (select %s cm) ck)", v0)
+		var body string
+		var tu types.Type = mt.Elem().Underlying()
+		if _, isTP := types.Unalias(mt.Elem()).(*types.TypeParam); isTP {
+			tu = nil
+		}
+		switch tu.(type) {
+		case *types.Pointer, *types.Map, *types.Chan, *types.Signature:
+			body = fmt.Sprintf("(=> (<= (base cm) |wm@0|) (<= (base %s) |wm@0|))", sel)
+		case *types.Slice:
+			body = fmt.Sprintf("(=> (<= (base cm) |wm@0|) (and (<= (base (s.arr %s)) |wm@0|) (<= 0 (s.len %s)) (<= 0 (s.off %s)) (<= (s.len %s) (s.cap %s))))", sel, sel, sel, sel, sel)
+		case *types.Interface:
+			body = fmt.Sprintf("(=> (<= (base cm) |wm@0|) (and (<= (base (i.val %s)) |wm@0|) (<= 0 (i.tag %s))))", sel, sel)
+		}
+		if body != "" {
+			vc.decl(fmt.Sprintf("(declare-const %s %s)", v0, srt))
+			vc.decl("(declare-const |wm@0| Int)")
+			vc.axioms = append(vc.axioms, fmt.Sprintf("(assert (forall ((cm Int) (ck %s)) (! %s :pattern (%s))))", vc.sortOf(mt.Key()), body, sel))
+		}
+	}
+	return key, srt
 }
 
 func (fr *Frame) lookup(x *ssa.Lookup, st *State) {
